@@ -30,6 +30,13 @@ theorem not_starts2_of_error (s : Nat) (h : 400 ≤ s ∧ s < 600) : (StatusKey.
   have : s / 100 ≠ 2 := by omega
   simp [this]
 
+/-- A three-digit status outside 200-299 does not start with `2`. -/
+theorem not_starts2_of_3digits (s : Nat) (h3 : 100 ≤ s ∧ s < 1000) (h : ¬ (200 ≤ s ∧ s < 300)) :
+    (StatusKey.num s).starts2 = false := by
+  simp only [StatusKey.starts2, leadDigit_3digits s h3.1 h3.2]
+  have : s / 100 ≠ 2 := by omega
+  simp [this]
+
 /-! ## small list facts -/
 
 theorem eq_of_nodup_map {α β : Type} (f : α → β) :
@@ -1022,16 +1029,93 @@ theorem secondaryRet_text {x : Resp} (hne : x.content ≠ [])
   have : shapeTy m.shape = .str := by rw [hsh m (handlerMedia_mem hm)]; rfl
   simp only [this, isTextBody_str hne htx, if_true]
 
+/-- The `case _:` arm: the guarded return of a `default` response with content, "Default error" for another `default`
+    response, the catch-all without one. -/
+theorem defaultAction_cases (rs : List Resp) :
+    (rs.any (fun x => x.key.isDefault) = true ∧ (defaultAction rs = .retDefault ∨ defaultAction rs = .raiseDefault)) ∨
+    (rs.any (fun x => x.key.isDefault) = false ∧ defaultAction rs = .raiseCatchAll) := by
+  unfold defaultAction
+  cases hf : rs.find? (fun r => r.key.isDefault) with
+  | none =>
+    right
+    refine ⟨?_, rfl⟩
+    rw [List.any_eq_false]
+    intro x hx
+    have := List.find?_eq_none.mp hf x hx
+    simpa using this
+  | some d =>
+    left
+    refine ⟨?_, ?_⟩
+    · rw [List.any_eq_true]
+      exact ⟨d, List.mem_of_find?_eq_some hf, List.find?_some (p := fun r : Resp => r.key.isDefault) hf⟩
+    · simp only
+      split
+      · exact Or.inl rfl
+      · exact Or.inr rfl
+
+/-- A status for which no numeric response is declared falls through to the `case _:` arm. -/
+theorem select_undeclared {rs : List Resp} {s : Nat} (hu : ∀ x ∈ rs, x.key.code? ≠ some s) :
+    selectAction rs s = defaultAction rs := by
+  have hnone : (arms rs).find? (fun a => a.1 == s) = none := by
+    apply find_arm_none
+    intro a ha has
+    rcases mem_arms ha with ⟨p, hp, _⟩ | ⟨y, hy, hya⟩
+    · have hsp := processedPrimary_spec hp
+      have := hu p hsp.1
+      rw [hsp.2.1, has] at this
+      exact this rfl
+    · have hyk := otherArm_code (n := a.1) (a := a.2) hya
+      have := hu y (otherResponses_sub hy)
+      rw [hyk, has] at this
+      exact this rfl
+  unfold selectAction
+  rw [hnone]
+
+/-- A DECLARED status whose decimal string does not start with `2` selects its own raising arm: the alias class when
+    one exists (4xx/5xx), the base class otherwise (1xx/3xx, F3 repaired). -/
+theorem select_declared_non2 (rs : List Resp) (s : Nat) (hns : (StatusKey.num s).starts2 = false)
+    (hd : ∃ x ∈ rs, x.key = .num s) :
+    selectAction rs s = (if (aliasBase s).isSome then Action.raiseAlias s else Action.raiseUnhandled) := by
+  obtain ⟨x, hx, hk⟩ := hd
+  have hxo : x ∈ otherResponses rs := by
+    apply mem_otherResponses hx
+    intro p n hp heq
+    have := (processedPrimary_spec hp).2.2.1
+    rw [← heq, hk, hns] at this
+    cases this
+  have hxa : otherArm x = some (s, if (aliasBase s).isSome then Action.raiseAlias s else Action.raiseUnhandled) := by
+    rw [otherArm_num hk, hns]; simp
+  have hex : ∃ a ∈ arms rs, a.1 = s := ⟨_, otherArm_mem_arms hxo hxa, rfl⟩
+  have hall : ∀ a ∈ arms rs, a.1 = s →
+      a.2 = (if (aliasBase s).isSome then Action.raiseAlias s else Action.raiseUnhandled) := by
+    intro a ha has
+    rcases mem_arms ha with ⟨p, hp, _⟩ | ⟨y, _, hy⟩
+    · have hsp := processedPrimary_spec hp
+      have h2 := hsp.2.2.1
+      rw [hsp.2.1, has, hns] at h2
+      cases h2
+    · have hyk := otherArm_code (n := a.1) (a := a.2) hy
+      rw [otherArm_num hyk, has, hns] at hy
+      simp only [Bool.false_eq_true, if_false, Option.some.injEq] at hy
+      rw [← hy]
+  obtain ⟨a, hfa, ha2⟩ := find_arm hex hall
+  unfold selectAction
+  rw [hfa]
+  exact ha2
+
 theorem select_retStrategy {rs : List Resp} {s : Nat} (h : selectAction rs s = .retStrategy) :
-    (processedPrimary rs).isSome = true ∨ defaultAction rs = .retStrategy := by
+    (processedPrimary rs).isSome = true := by
   unfold selectAction at h
   cases hf : (arms rs).find? (fun a => a.1 == s) with
-  | none => rw [hf] at h; exact Or.inr h
+  | none =>
+    rw [hf] at h
+    simp only at h
+    rcases defaultAction_cases rs with ⟨_, h' | h'⟩ | ⟨_, h'⟩ <;> rw [h'] at h <;> cases h
   | some a =>
     rw [hf] at h
     simp only at h
     rcases mem_arms (List.mem_of_find?_eq_some hf) with ⟨p, hp, _⟩ | ⟨y, _, hy⟩
-    · left; rw [hp]; rfl
+    · rw [hp]; rfl
     · exfalso
       have hyk := otherArm_code (n := a.1) (a := a.2) hy
       rw [otherArm_num hyk] at hy
@@ -1079,9 +1163,8 @@ theorem runAction_returns {rs : List Resp} {r : Reply} {s : Nat}
       have := hc.2
       unfold importsStructure at this
       simp only [hct, Bool.true_and, Bool.or_eq_false_iff] at this
-      rcases select_retStrategy ha with h | h
-      · rw [h] at this; simp at this
-      · rw [h] at this; simp at this
+      have h := select_retStrategy ha
+      rw [h] at this; simp at this
     · exact ⟨_, rfl⟩
   | retSecondary k =>
     simp only [runAction, returnOf]
@@ -1103,6 +1186,24 @@ theorem runAction_returns {rs : List Resp} {r : Reply} {s : Nat}
   | raiseDefault => rw [ha] at hret; cases hret
   | raiseUnhandled => rw [ha] at hret; cases hret
   | raiseCatchAll => rw [ha] at hret; cases hret
+  | retDefault => rw [ha] at hret; cases hret
+
+/-- The guarded return of a `default` response with content never hits the missing-import `NameError` either: the
+    strategy return written inside the `if` registers its imports as the primary arm does. -/
+theorem returnOf_strategy_of_retDefault {rs : List Resp} (r : Reply) (hd : defaultAction rs = .retDefault) :
+    returnOf rs (strategyRet (resolveStrategy rs) r) = .returned (strategyRet (resolveStrategy rs) r) := by
+  unfold returnOf
+  split
+  · next hc =>
+    exfalso
+    simp only [Bool.and_eq_true, Bool.not_eq_true'] at hc
+    have hct := strategyRet_needsStructure hc.1
+    have := hc.2
+    unfold importsStructure at this
+    simp only [hct, Bool.true_and, Bool.or_eq_false_iff] at this
+    rw [hd] at this
+    simp at this
+  · rfl
 
 theorem runAction_isReturn_not_raised {rs : List Resp} {r : Reply} {a : Action} (h : a.isReturn = true) :
     ∀ cls st w why, runAction rs r a ≠ .raised cls st w why := by
